@@ -6,6 +6,30 @@ var stdAssume = []string{
 }
 
 var props = map[string]*propCfg{
+	"C15": {
+		Engine: "loadersim", Level: "exploration",
+		QuickRuns: 20000, ThoroughRuns: 2000000, QuickSeconds: 45, ThoroughSeconds: 1500, TimeoutS: 30,
+		Rule: "one run = a history of 3-10 references (GetTemplate, Parse, extends, import, include literal and computed from data, exec, includeIfExists) with tape-spelled names (absolute/relative, ./ ../ // segments at any position, more .. than the depth, trailing slash, names aimed at a canary outside the root) from referrers at directory depth 0-3 under 4 extension lists, default or recording cache, normal or development mode; 1 run in 8 on a real directory-rooted OSFileSystemLoader with a canary file outside the root. Invariant on EVERY Loader.Exists/Open and Cache.Get/Put argument: canonical, and in the allowed set {expected(referrer, name, kind)+ext}. Non-trivial = at least one path crossed a seam; distinct = hash of (history, extensions, loader kind).",
+		Assumptions: append([]string{"backslashes are never generated (platform specific)", "the expected canonical form is computed by the harness's own segment-stack normaliser"}, stdAssume...),
+		Real:        []string{"Set (GetTemplate/Parse/getSiblingTemplate)", "parser (extends/import)", "interpreter (include, exec, includeIfExists)", "InMemLoader", "OSFileSystemLoader on a real scratch directory", "default cache"},
+		Stub:        []string{"SimLoader recording wrapper", "SimCache recording cache"},
+	},
+	"C16": {
+		Engine: "loadersim", Level: "exploration",
+		QuickRuns: 20000, ThoroughRuns: 2000000, QuickSeconds: 45, ThoroughSeconds: 1500, TimeoutS: 30,
+		Rule: "one run = a history of 4-30 operations (GetTemplate, GetTemplate+Execute with run-time includes, Parse with extends/import, loader Set/Delete with unique version markers, new Set over the same loader, arming loader faults) on 1-2 Sets over one SimLoader, under tape-chosen development mode, default or recording cache and one of 5 extension lists (two candidate extensions may exist); faults stop at a tape-chosen point. Judged per operation against a clause model: identical pointer and zero loader calls on repeat hits; no answer without the loader unless something legitimately cacheable was loaded under that name (failure-cached, put-in-parse); progress once faults stopped; dev mode reloads, renders current versions and never Puts; Exists candidates in configured order and exactly the found path opened. Non-trivial = at least two judged operations; distinct = hash of (history, extensions).",
+		Assumptions: append([]string{"the model is silent where the statement is silent (e.g. whether two spellings share a cache entry; Close discipline)"}, stdAssume...),
+		Real:        []string{"Set (getTemplate, cache probe, extension iteration, loadFromFile)", "default cache (sync.Map)", "parser (extends/import with cacheAfterParsing)", "interpreter (run-time include)", "InMemLoader"},
+		Stub:        []string{"SimLoader (recording, fault injection: transient miss, open error, read error after k bytes, close error, unparsable content)", "SimCache recording cache"},
+	},
+	"C19": {
+		Engine: "loadersim", Level: "exploration",
+		QuickRuns: 20000, ThoroughRuns: 2000000, QuickSeconds: 45, ThoroughSeconds: 1500, TimeoutS: 30,
+		Rule: "one run = an edit/query history of 3-25 operations against a reference tree (path -> file bytes | directory) on one of: InMemLoader with arbitrary spellings; OSFileSystemLoader over a real per-run scratch directory (WriteFile/MkdirAll/RemoveAll); httpfs over a simulated http.FileSystem with injected Open/Stat/Read errors; embedfs over a static embedded tree (EXHAUSTIVE sweep of its path alphabet to depth 4); multi stacks of 1-3 loaders with overlapping contents and AddLoaders mid-history. Judged per query: Exists(p) iff the reference has a regular file there (never a directory); Exists implies Open reads exactly the reference bytes (multi: those of the first loader in construction order that has the file); after an injected fault that call may fail, never wrong bytes. Non-trivial = at least one query; distinct = hash of (configuration, edit history, query count).",
+		Assumptions: append([]string{"file-system loaders are only queried with clean absolute paths (what a Set produces)", "OSFileSystemLoader runs on the real disk without fault injection; embed.FS cannot be edited at run time"}, stdAssume...),
+		Real:        []string{"InMemLoader", "OSFileSystemLoader (real scratch directory)", "loaders/httpfs", "loaders/embedfs", "loaders/multi"},
+		Stub:        []string{"simulated http.FileSystem (SimFS) with fault injection", "reference tree model"},
+	},
 	"C05": {
 		Engine: "execsim", Level: "exploration",
 		QuickRuns: 20000, ThoroughRuns: 2000000, QuickSeconds: 45, ThoroughSeconds: 1500, TimeoutS: 30,
